@@ -1,4 +1,4 @@
-import BppProofs.Lemmas.MatrixOfFn
+import BppProofs.Lemmas.MatrixMisc
 /-!
 # C04 — matrix operations match their definitions for every shape and storage layout
 (`src/Bpp/Numeric/Matrix/Matrix.h`, `src/Bpp/Numeric/Matrix/MatrixTools.h`)
@@ -290,6 +290,16 @@ theorem directSum_spec {A B : Store ℝ} (hA : A.WF) (hB : B.WF) (O : Store ℝ)
     · have : i - A.nrows < B.nrows ∧ j - A.ncols < B.ncols := by omega
       simp [h1, h2, this]
 
+/-- the n-ary direct sum: `Spec.dsumFold` folds the binary direct sum from the left over the blocks -/
+theorem directSumN_spec (vA : List (Store ℝ)) (hwf : ∀ M ∈ vA, M.WF) (O : Store ℝ) :
+    ∃ O', dsumN vA O = .ok O' ∧ O'.kind = O.kind ∧
+      O'.Holds (Spec.dsumFold (0, 0, fun _ _ => 0) (vA.map fun M => (M.nrows, M.ncols, M.entry))).1
+        (Spec.dsumFold (0, 0, fun _ _ => 0) (vA.map fun M => (M.nrows, M.ncols, M.entry))).2.1
+        (Spec.dsumFold (0, 0, fun _ _ => 0) (vA.map fun M => (M.nrows, M.ncols, M.entry))).2.2 := by
+  have := dsumN_holds vA hwf O
+  simp only [ScalarReal.zero_eq] at this
+  exact this
+
 /-! ## covariance (`MatrixTools.h:884-908`) -/
 
 /-- `covar(A, O)`: `(1/n)·A·Aᵀ − μ·μᵀ` for a sample matrix with `r ≥ 1` rows and `n ≥ 1` columns -/
@@ -348,6 +358,42 @@ theorem sumElements_spec {M : Store ℝ} (hM : M.WF) :
     | zero => simp
     | succ r ih => rw [List.range_succ, List.foldl_append, ih, Finset.sum_range_succ]; simp [inner]
   exact outer M.nrows
+
+/-- `diag(M, O)`: the diagonal of a square matrix as a vector; a `DimensionException` otherwise -/
+theorem diagOf_spec {M : Store ℝ} (hM : M.WF) :
+    (M.ncols = M.nrows → ∃ v, diagM M = .ok v ∧ v.size = M.nrows ∧ ∀ i (hi : i < v.size), v[i] = M.entry i i) ∧
+    (M.ncols ≠ M.nrows → diagM M = .error .dimension) :=
+  ⟨fun h => diagM_ok hM h, fun h => diagM_nonsquare h⟩
+
+/-- `toVVdouble`: `nrows` vectors of `ncols` entries -/
+theorem toVVdouble_spec {M : Store ℝ} (hM : M.WF) :
+    ∃ vv, toVV M = .ok vv ∧ vv.size = M.nrows ∧
+      ∀ i (hi : i < vv.size), vv[i].size = M.ncols ∧ ∀ j (hj : j < vv[i].size), vv[i][j] = M.entry i j := toVV_ok hM
+
+/-- `isSymmetric` answers `true` exactly for square matrices equal to their transpose -/
+theorem isSymmetric_spec {A : Store ℝ} (hA : A.WF) :
+    ∃ b, isSymmetric A = .ok b ∧
+      (b = true ↔ A.ncols = A.nrows ∧ ∀ i j, i < A.nrows → j < A.nrows → A.entry i j = A.entry j i) := by
+  by_cases hsq : A.ncols = A.nrows
+  · refine ⟨_, isSymmetric_ok hA hsq, ?_⟩
+    simp only [List.all_eq_true, List.mem_range, ScalarReal.eqb_iff]
+    constructor
+    · intro h
+      refine ⟨hsq, ?_⟩
+      have hlt : ∀ i j, i < j → j < A.nrows → A.entry i j = A.entry j i := by
+        intro i j hij hj
+        have := h i (by omega) (j - (i + 1)) (by omega)
+        have e : i + 1 + (j - (i + 1)) = j := by omega
+        rwa [e] at this
+      intro i j hi hj
+      rcases Nat.lt_trichotomy i j with h1 | h1 | h1
+      · exact hlt i j h1 hj
+      · rw [h1]
+      · exact (hlt j i h1 hi).symm
+    · intro h i hi t ht
+      exact h.2 i (i + 1 + t) (by omega) (by omega)
+  · refine ⟨false, isSymmetric_nonsquare hsq, ?_⟩
+    simp [hsq]
 
 /-! ## non-conformable operands raise a dimension error (and nothing is read) -/
 
